@@ -15,6 +15,9 @@
   OBLIGATION c12_unbounded_nesting
   OBLIGATION c12_unbounded_nesting_slope
   OBLIGATION c12_spread_violated_by_spreadsExpanded
+  OBLIGATION c12_directives_walk_after_depth_check
+  OBLIGATION c12_prechecks_never_overflow
+  OBLIGATION c12_prechecks_order_needed
   OPEN c12_unbounded_nesting_document
 -/
 import AGV.Lemmas.Hostile
@@ -100,6 +103,29 @@ theorem c12_spread_violated_by_spreadsExpanded :
     spreadVisits (bomb 4 6) 32 40 0 0 = some 1365 ∧ distinctVisits (bomb 4 6) = 6 ∧
     spreadVisits (bomb 4 7) 32 40 0 0 = some 5461 := by
   decide
+
+/-- `check_max_directives` has no depth bound and no cycle guard of its own: it terminates (within
+    the same stack) on every document on which `check_recursive_depth` passed — that is the
+    dependency between the two checks. -/
+theorem c12_directives_walk_after_depth_check (frags : Spreads) (max stack d i v : Nat)
+    (h : spreadVisits frags max stack d i = some v) : dirWalk frags stack i ≠ none :=
+  dirWalk_of_spreadVisits frags max stack d i v h
+
+/-- With the checks in the order of the SOURCE (`Gen/LimitFacts.checkOrder`, extracted from
+    `prepare_request`): on every spread graph (cycles included), every `recursive_depth`, every
+    `limit_directives` setting and every stack, the pre-execution checks reject or pass — they
+    never exhaust the stack. -/
+theorem c12_prechecks_never_overflow (frags : Spreads) (max : Nat) (maxDirs : Option Nat) (stack root : Nat) :
+    runChecks frags max maxDirs stack root AGV.Gen.LimitFacts.checkOrder ≠ .overflow :=
+  runChecks_source_order frags max maxDirs stack root
+
+/-- …and the order is what does it: with the directives check first, `{...A} fragment A on Q{...A}`
+    exhausts EVERY stack as soon as `limit_directives` is set (while the source order rejects it). -/
+theorem c12_prechecks_order_needed (stack : Nat) :
+    runChecks [[0]] 32 (some 5) stack 0 ["check_max_directives", "check_recursive_depth", "check_rules"] = .overflow ∧
+    runChecks [[0]] 32 (some 5) 40 0 AGV.Gen.LimitFacts.checkOrder = .rejected := by
+  refine ⟨?_, by decide⟩
+  simp [runChecks, dirWalk_self_cycle]
 
 -- ------------------------------------------------------------------ open
 
